@@ -89,6 +89,11 @@ def cases(draw):
     if "first_limit" not in case and draw(st.integers(0, 4)) == 0:
         # the first iterations are requested in batches (DoGlobalIteration(k), k > 1), Solve finishes the search
         case["batches"] = draw(gen.compositions(draw(st.sampled_from([10, 40, 50, 100])), max_parts=4))
+    if draw(st.integers(0, 9)) == 0:
+        # the objective fails once (an interrupt from the keyboard, a numerical error) at one of the first evaluations;
+        # whatever the first Solve does with it, the user calls Solve again and that one ends with the accuracy stop
+        case["fault"] = {"at": draw(st.integers(2, 40)),
+                         "exc": draw(st.sampled_from(["KeyboardInterrupt", "ObjectiveFailure", "ValueError"]))}
     if draw(st.integers(0, 4)) == 0:
         # the search is first run with a small budget, then the budget is raised and Solve is called again: the
         # statement is about the Solve that ends with the accuracy stop, however the trials before it were spent
@@ -123,6 +128,19 @@ def body(case):
             if "outside of interval" not in str(e):
                 raise
             return False, ["N=%d" % n, "inconclusive:float-resolution"]
+    if case.get("fault"):
+        from vlib.objectives import ObjectiveFailure
+        exc = {"KeyboardInterrupt": KeyboardInterrupt, "ObjectiveFailure": ObjectiveFailure,
+               "ValueError": ValueError}[case["fault"]["exc"]]
+        run.problem.fail_at = max(case["fault"]["at"], len(run.problem.log) + 1)
+        run.problem.fail_exc = exc
+        try:
+            run.solve()
+        except exc:
+            pass            # (whether a failure may leave Solve is C16's subject)
+        run.problem.fail_at = None
+        import io
+        run.out = io.StringIO()     # (the notice about the contained failure; the deciding Solve starts with a clean page)
     sol = run.solve()
     hist = run.history()
     classes = ["N=%d" % n, "class=" + case["class"], "family=" + recipe["obj"]["family"],
@@ -140,6 +158,8 @@ def body(case):
         classes.append("very-long-run")
     if case.get("zigzag"):
         classes.append("zigzag-one-large-batch")
+    if case.get("fault"):
+        classes.append("transient-objective-failure-then-solved-again")
     if len(hist) >= p["itersLimit"]:
         classes.append("inconclusive:budget")
         return False, classes
